@@ -1,13 +1,13 @@
 SPECIFICATION Spec
 CONSTANTS
-  Sizes = {0, 2, 11, 4100}
-  Lays <- MC_NumLays
+  Sizes = {100, 4097}
+  Lays <- MC_ModesLays
   Modes = {"r", "r+"}
-  RCounts = {1, 4096}
-  WCounts = {2}
+  RCounts = {1}
+  WCounts <- MC_None
   SOffs = {0}
   VBufs <- MC_None
-  Extra <- MC_AllExtra
+  Extra = {"getiter", "calliter", "close", "readline", "seek0"}
   Naive = FALSE
   Gen = TRUE
 VIEW genview
